@@ -310,6 +310,10 @@ OnRet(m, e) ==
                  THEN Flag(m, "c10-task-ended-after-recoverable-fault")
             ELSE IF m.cancelAt = -1 /\ m.postDone /\ m.doneCls # {} /\ e.res = "nil"
                  THEN Flag(m, "c10-fault-not-reported")
+            \* the task gave up although nothing failed (no read / write / state error, no exhausted timeouts, no link
+            \* event, no failed dial): e.g. invalid messages used up the receive retries
+            ELSE IF m.cancelAt = -1 /\ m.postDone /\ m.doneCls = {} /\ e.res # "nil"
+                 THEN Flag(m, "c09-c10-task-ended-without-any-fault")
             ELSE IF needFinal /\ ~(m.lastW.mc /\ m.lastW.life = 0 /\ m.lastW.t >= m.cancelAt)
                  THEN Flag(m, "c08-final-ra-missing-or-not-last")
             ELSE m
